@@ -240,9 +240,9 @@ RunOps(Kx, e, h, ops, acc) ==
             [] op[1] = "stopmgr" ->
                  LET K1 == Emit(Kx, << [opl("stopmgr") EXCEPT !.x = op[2], !.c = c] >>)
                      st == DoStop(K1, op[2], TRUE)
-                 IN IF ExitDeferred
-                    THEN RunOps([st[1] EXCEPT !.run.exit = IF @ = -1 /\ Kx.running THEN op[2] ELSE @], e, h, Tail(ops), acc)
-                    ELSE IF st[2] THEN <<st[1], 0, "exit", op[2]>>     \* stop(code) raised SystemExit(code)
+                 IN IF st[2]      \* stop(code) raised SystemExit(code): it leaves the handler
+                    THEN <<IF ExitDeferred THEN [st[1] EXCEPT !.run.exit = IF @ = -1 THEN op[2] ELSE @] ELSE st[1],
+                           0, "exit", op[2]>>
                     ELSE RunOps(st[1], e, h, Tail(ops), acc)
             [] op[1] = "stop2" ->
                  LET K1 == Emit(Kx, << [opl("stop2") EXCEPT !.x = op[2], !.c = RootK(Kx, c)] >>)
